@@ -408,8 +408,8 @@ def drv_derivative(ctx, k, rng):
     dtype = pick(rng, [None, F64, F64])
     stock = P.make_stock(rng, pick(rng, ["brownian", "brownian", "heston", "merton", "kou"]), dtype=dtype)
     n_steps = int(pick(rng, [0, 1, 2, 4, 20]))
-    d = P.make_derivative(rng, stock, n_steps=n_steps if n_steps > 0 else None,
-                          maturity=0.0 if n_steps == 0 else None)
+    frac = float(pick(rng, [0.0, 0.0, 0.5, 0.25]))
+    d = P.make_derivative(rng, stock, maturity=(n_steps + (frac if n_steps else 0.0)) * stock.dt, clauses=False)
     n = int(pick(rng, [1, 3, 30]))
     d.simulate(n_paths=n)
     if rng.random() < 0.5:
